@@ -190,6 +190,12 @@ def run_dimwise(case, res):
     ns = [len(x) for x in xs]
     N = int(np.prod([n - 2 for n in ns]))
     X, labels, style = gen_data(rng, d, xs)
+    if N < 200 and rng.random() < 0.08:
+        # samples stored in single precision (exactly representable in double precision); small grids evaluate all hats in one
+        # vectorised call, whose result must not depend on the storage type of the samples
+        X = X.astype(np.float32)
+        style += "_float32"
+        res.count("single_precision_samples")
     lam = rng.choice([0.0, 1e-3, 0.1, 1.0] * 5 + [1e9])     # rarely a very strong regulariser (tiny surpluses before the normalisation)
     ml = rng.random() < 0.25
     numeric = (N <= 9 and rng.random() < 0.3) if tier == "thorough" else (N <= 4 and d == 1 and rng.random() < 0.5)
